@@ -335,7 +335,10 @@ func c08MakeWorkload(seed int64, idx int, H int) *c08Workload {
 			if (i == 0 && h >= 1) || (i == 2 && h >= 2) {
 				acc.Candidate.Profile[types.CandidateKeyIsCandidate] = types.IsCandidateNode
 				acc.Candidate.Profile["host"] = "node" + strconv.Itoa(i)
-				acc.Candidate.Votes = big.NewInt(int64(100*h + i))
+				// the vote total changes its RLP byte length with (almost) every update, growing and shrinking: a fixed-slot
+				// candidate record whose persisted length field is not rewritten on update only shows on such updates
+				sizes := []int64{100, 300, 70000, 200, 20000000, 5, 65536}
+				acc.Candidate.Votes = big.NewInt(sizes[(h-1)%len(sizes)] + int64(i))
 				cands[a.Hex()] = acc.Candidate.Votes.String()
 			}
 			state[a.Hex()] = c08AccDigest(acc)
